@@ -440,6 +440,10 @@ class SpecMixin(object):
     a, b = [self.sv(x, cx) for x in n.args]
     return VBool(to_u(a, cx) == to_u(b, cx))
 
+  def spec_fn_setvalue(self, n, cx):
+    v = self.sv(n.args[0], cx)
+    return VRef(ufn('set_value', U, U)(to_u(v, cx)), ANY)
+
   def spec_fn_card(self, n, cx):
     v = self.sv(n.args[0], cx)
     return VInt(cx.heap.get('card')(to_u(v, cx)))
